@@ -206,6 +206,70 @@ func TestVerifC12Unit(t *testing.T) {
 			r.Eval(tot)
 		}
 		verifHook.Store(nil)
+
+		// ---- phase 3: long lossy / reordered stream (several windows) with replays of already accepted packets,
+		// aimed at the window edges (head-W+1, head-W, head-W-1), the previous head, and word boundaries
+		ini, resp, _, _ = vnCSPair(ca, cipher, cert.Version2)
+		nb3 := make([]byte, 12)
+		stream := verifkit.Scale(3*ReplayWindow+500, 12*ReplayWindow)
+		type sent struct {
+			p   c12Pkt
+			acc int
+		}
+		byCtr := map[uint64]*sent{}
+		var order []uint64
+		for i := 0; i < stream; i++ {
+			p := c12Seal(ini, rng.IntN(5) == 0, 11, []byte{byte(i), byte(i >> 8), byte(i >> 16)})
+			byCtr[p.ctr] = &sent{p: p}
+			order = append(order, p.ctr)
+		}
+		// loss bursts (some crossing 64-counter boundaries) and mild reordering
+		var deliver []uint64
+		for i := 0; i < len(order); i++ {
+			if rng.IntN(40) == 0 {
+				i += 1 + rng.IntN(130) // lost burst
+				continue
+			}
+			deliver = append(deliver, order[i])
+		}
+		for i := range deliver {
+			j := i + rng.IntN(min(6, len(deliver)-i))
+			deliver[i], deliver[j] = deliver[j], deliver[i]
+		}
+		var head uint64
+		replays := 0
+		tryOne := func(c uint64, why string) {
+			sp, ok := byCtr[c]
+			if !ok {
+				return
+			}
+			r.Eval(1)
+			if c12Recv(resp, l, sp.p, nb3) {
+				sp.acc++
+				if sp.acc > 1 {
+					r.Violation("C12/replayed-packet-accepted", fmt.Sprintf("cipher=%s relay=%v counter=%d accepted %d times (%s, highest accepted %d)", cipher, sp.p.relay, c, sp.acc, why, head),
+						map[string]any{"phase": "stream", "cipher": cipher, "counter": c, "accepted": sp.acc, "why": why, "head": head, "window": ReplayWindow})
+				}
+				if c > head {
+					head = c
+				}
+			}
+		}
+		for _, c := range deliver {
+			r.Pre("stream cipher=%s ctr=%d head=%d", cipher, c, head)
+			tryOne(c, "first delivery")
+			// replays after every accepted packet
+			for _, d := range []uint64{ReplayWindow - 1, ReplayWindow, ReplayWindow - 2, 1, 63, 64, 65, uint64(rng.IntN(ReplayWindow))} {
+				if head > d {
+					if sp, ok := byCtr[head-d]; ok && sp.acc > 0 {
+						replays++
+						tryOne(head-d, fmt.Sprintf("replay of head-%d", d))
+					}
+				}
+			}
+		}
+		r.Count("stream_replays_of_accepted_packets", replays)
+		r.DistinctClass(fmt.Sprintf("stream cipher=%s windows=%d", cipher, stream/ReplayWindow))
 	}
 	if r.Counter("rounds_all_copies_passed_check_concurrently") == 0 {
 		r.Inconclusive("no barrier round had all copies past Check concurrently (hook decrypt.afterCheck never effective)")
